@@ -672,3 +672,92 @@ Proof.
   unfold keys_items_decision. destruct (mem (keys_items_name value target) used) eqn:E; [discriminate|].
   intros [= <-]. now apply mem_false_not_In.
 Qed.
+
+(* ---------------------------------------------------------------------------------------- *)
+(* T19.8 (round 5) the list of mentions is an INPUT of the decision.
+
+   decide_alpha / align_alpha speak about the places that are in that list.  They speak about the
+   program exactly when the list holds every place where an identifier is written.  `places` is
+   that ground truth, `ms` is what fixes._iter_identifier_mentions hands to the rule; the premise is
+   named, and the two `_refuted` theorems show that it cannot be dropped: with a single place
+   missing from the list (the star capture of `case [x, *name]`), both halves of the property fail. *)
+
+Definition mentions_complete (places ms : list mention) : Prop := incl places ms.
+
+Theorem decide_alpha_complete imp dfn ms cs pres places p1 p2 :
+  wf_decision ms cs -> mentions_complete places ms -> In p1 places -> In p2 places ->
+  (mention_sub (decide imp dfn ms cs pres) p1 = mention_sub (decide imp dfn ms cs pres) p2
+   <-> m_name p1 = m_name p2).
+Proof.
+  intros Hwf Hc H1 H2. apply (decide_alpha imp dfn ms cs pres Hwf); now apply Hc.
+Qed.
+
+Theorem align_alpha_complete pres m places p1 p2 :
+  wf_modl m = true -> mentions_complete places (mentions m) -> In p1 places -> In p2 places ->
+  (mention_sub (align pres m) p1 = mention_sub (align pres m) p2 <-> m_name p1 = m_name p2).
+Proof.
+  intros Hwf Hc H1 H2. apply (align_alpha pres m p1 p2 Hwf); now apply Hc.
+Qed.
+
+(* def describe(seq):
+       tailItems = "n/a"                 node 0, candidate tail_items
+       match seq:
+           case [head, *tail_items]: ... the place that the list does not contain
+       return tailItems                  node 1, candidate tail_items                              *)
+Definition tail_items_old : ident := [116; 97; 105; 108; 73; 116; 101; 109; 115]%N.        (* tailItems *)
+Definition tail_items_new : ident := [116; 97; 105; 108; 95; 105; 116; 101; 109; 115]%N.   (* tail_items *)
+Definition star_ms : list mention :=
+  [Mention (Some 0%nat) tail_items_old; Mention (Some 1%nat) tail_items_old].
+Definition star_cs : list cand :=
+  [Cand 0 tail_items_old [tail_items_new]; Cand 1 tail_items_old [tail_items_new]].
+
+Lemma star_wf : wf_decision star_ms star_cs.
+Proof.
+  split.
+  - cbn. repeat constructor; cbn; intuition discriminate.
+  - intros m n c Hm _ Hc _. cbn in Hm, Hc.
+    destruct Hm as [<-|[<-|[]]]; destruct Hc as [<-|[<-|[]]]; reflexivity.
+Qed.
+
+(* capture: two different variables carry the same identifier after the pass *)
+Theorem mentions_incomplete_capture_refuted :
+  exists ms cs missing p,
+    wf_decision ms cs /\ In p ms /\ ~ In missing ms
+    /\ m_name p <> m_name missing
+    /\ mention_sub (decide [] [] ms cs []) p = mention_sub (decide [] [] ms cs []) missing.
+Proof.
+  exists star_ms, star_cs, (Mention None tail_items_new), (Mention (Some 0%nat) tail_items_old).
+  split; [exact star_wf|]. split; [now left|]. split.
+  - cbn. intros [H|[H|[]]]; discriminate H.
+  - split; [cbn; discriminate|]. vm_compute. reflexivity.
+Qed.
+
+(* partial renaming: one variable carries two identifiers after the pass
+   (restItems = [] ... case [first, *restItems] ... return restItems) *)
+Theorem mentions_incomplete_partial_rename_refuted :
+  exists ms cs missing p,
+    wf_decision ms cs /\ In p ms /\ ~ In missing ms
+    /\ m_name p = m_name missing
+    /\ mention_sub (decide [] [] ms cs []) p <> mention_sub (decide [] [] ms cs []) missing.
+Proof.
+  exists star_ms, star_cs, (Mention None tail_items_old), (Mention (Some 0%nat) tail_items_old).
+  split; [exact star_wf|]. split; [now left|]. split.
+  - cbn. intros [H|[H|[]]]; discriminate H.
+  - split; [reflexivity|]. vm_compute. discriminate.
+Qed.
+
+(* with the place in the list, the same candidates are refused (capture) *)
+Example mentions_complete_capture_blocked :
+  decide [] [] (Mention None tail_items_new :: star_ms) star_cs [] = [].
+Proof. vm_compute. reflexivity. Qed.
+
+(* ... and nothing is renamed when a place of the old identifier is not a renamed node (partial renaming) *)
+Example mentions_complete_partial_rename_blocked :
+  decide [] [] (Mention None tail_items_old :: star_ms) star_cs [] = [].
+Proof. vm_compute. reflexivity. Qed.
+
+(* non-vacuity of the premise: it holds for the complete lists above *)
+Example mentions_complete_example :
+  mentions_complete (Mention None tail_items_new :: star_ms) (Mention None tail_items_new :: star_ms)
+  /\ decide [] [] star_ms star_cs [] <> [].
+Proof. split; [apply incl_refl|vm_compute; discriminate]. Qed.
